@@ -24,6 +24,7 @@ package props
 //   generator  : a corpus package the generator accepted but whose Go code does not compile
 
 import (
+	"os"
 	"encoding/json"
 	"fmt"
 	"math"
@@ -1369,6 +1370,10 @@ func c17SchemaFiles(c *core.Ctx, schema string) (dir string, files []string) {
 		return rm, []string{"enum-module.yang", "enum-union.yang", "enum-list-uncompressed.yang"}
 	case "venrepo-c":
 		return rm, []string{"openconfig-list-enum-key.yang", "openconfig-enumcamelcase.yang", "enum-module.yang", "enum-union.yang"}
+	}
+	// any other corpus schema: <name>.yang under /verif/schemas
+	if _, err := os.Stat(filepath.Join(s, schema+".yang")); err == nil {
+		return s, []string{schema + ".yang"}
 	}
 	return "", nil
 }
